@@ -9,7 +9,18 @@ Conventions
   * every comparison is made in MASS space (eigenvalues of the covariance) and normalised by
     the trace of the exact discounted covariance of the history (sum of c), as DESIGN.md says.
 """
+import traceback
+
 import numpy as np
+
+
+def in_code_under_test(e):
+  """True iff the exception passed through a frame of the library under test (then it is data
+  about the code); an exception raised purely inside the harness is a machinery error."""
+  for fr in traceback.extract_tb(e.__traceback__):
+    if "/precondition/" in fr.filename and "/harness/" not in fr.filename:
+      return True
+  return False
 
 
 def orth(rs, n):
